@@ -1,0 +1,21 @@
+//go:build verif
+// +build verif
+
+package logical
+
+import "com.tuntun.rangers/node/src/consensus/groupsig"
+
+// Verification hook (C13): exported access to the unexported groupSignGenerator that round1
+// uses for the block signature and the random beacon. Wrappers only.
+
+type VerifC13SignGen struct{ g *groupSignGenerator }
+
+func VerifC13NewSignGen(threshold int) *VerifC13SignGen {
+	return &VerifC13SignGen{g: newGroupSignGenerator(threshold)}
+}
+
+func (v *VerifC13SignGen) AddWitnessSign(id groupsig.ID, sig groupsig.Signature) (bool, bool) {
+	return v.g.AddWitnessSign(id, sig)
+}
+func (v *VerifC13SignGen) SignRecovered() bool              { return v.g.SignRecovered() }
+func (v *VerifC13SignGen) GetGroupSign() groupsig.Signature { return v.g.GetGroupSign() }
